@@ -487,6 +487,13 @@ func RunNativeFault(d *Dir, strat int, fault Fault) (RunResult, error) {
 // the directory (as when configurations are shared between trees). The links are resolved again
 // before the directory is read back, so that the Dir keeps describing plain files.
 func RunNativeLinks(d *Dir, strat int, links []string) (RunResult, error) {
+	return RunNativeLinksModes(d, strat, links, nil)
+}
+
+// RunNativeLinksModes additionally takes the write permission bits away from the named files (mode 0444) before the run:
+// what somebody does to a file that is not to be edited by hand. Whether the process may still write it is the operating
+// system's business (the owner may not, the super-user may); gopki either writes the file or reports the failure.
+func RunNativeLinksModes(d *Dir, strat int, links, readonly []string) (RunResult, error) {
 	d.Tick(10)
 	root, err := os.MkdirTemp("", "gopki-verif-")
 	if err != nil {
@@ -516,6 +523,13 @@ func RunNativeLinks(d *Dir, strat int, links []string) (RunResult, error) {
 			return RunResult{}, err
 		}
 		mv = append(mv, moved{lp, rp})
+	}
+	for _, ro := range readonly {
+		if d.Files[ro] != nil {
+			if err := os.Chmod(filepath.Join(root, filepath.FromSlash(ro)), 0444); err != nil {
+				return RunResult{}, err
+			}
+		}
 	}
 	res := RunFS(filesystem.NewNativeFs(root), strat)
 	for _, m := range mv {
